@@ -13,7 +13,7 @@ DESCRIPTION = {
              "decompressor resets => compressor resets), and three messages per direction are pushed through the two PMCE objects. (b) Hypothesis traffic through real "
              "client/server connections for deflate (any lattice point), bzip2 and brotli: 2-6 messages per direction (compressible, random, empty, >=128KiB, text/binary, "
              "doNotCompress), fragmentation, applyMask on/off, adversarial read schedules; oracle as C01 plus: doNotCompress messages travel with RSV1 clear and raw payload, RSV1 only on "
-             "first frames, an independent raw-deflate inflater reproduces every compressed deflate message from the wire. (c) Negative handshakes: responses naming an "
+             "first frames, an independent raw-deflate inflater reproduces every compressed deflate message from the wire. (c) Negative handshakes (client with offers, and client that offered nothing): responses naming an "
              "unknown extension, repeating a compression extension, with unknown/duplicated/out-of-range/valued-flag parameters or declined by the accept policy must make "
              "the client drop without opening; malformed offers make the server refuse or ignore them. (d) Enumerated raw frames into an endpoint that negotiated "
              "permessage-deflate: RSV1 on first frames only delivers the original messages; RSV1 on a continuation frame (of a compressed or an uncompressed message), on a "
@@ -467,6 +467,10 @@ def negative(col, seed, n):
         st.tuples(st.just("client-declines"), st.sampled_from([("valid", "permessage-deflate"), ("valid-nct", "permessage-deflate; server_no_context_takeover")]), st.just("decline"), st.booleans()),
         st.tuples(st.just("client-valid"), st.sampled_from([("valid", "permessage-deflate"), ("valid-wb", "permessage-deflate; server_max_window_bits=12"),
                                                           ("valid-cwb", "permessage-deflate; client_max_window_bits=10; client_no_context_takeover")]), st.just("accept"), st.booleans()),
+        # a client that offered nothing: whatever extension the response names was not offered / is unknown to it
+        st.tuples(st.just("client-no-offers"), st.sampled_from(BAD_RESPONSES + [("valid", "permessage-deflate"), ("valid-nct", "permessage-deflate; server_no_context_takeover"),
+                                                                                ("unknown-only", "x-webkit-deflate-frame"), ("unknown-mux", "mux; max-channels=4")]),
+                  st.sampled_from(["accept", "decline"]), st.booleans()),
         st.tuples(st.just("server"), st.sampled_from(BAD_OFFERS), st.just("accept"), st.booleans()))
 
     def body(t):
@@ -477,6 +481,8 @@ def negative(col, seed, n):
             if role.startswith("client"):
                 opts = {"perMessageCompressionOffers": [PerMessageDeflateOffer()], "openHandshakeTimeout": 0,
                         "perMessageCompressionAccept": (lambda r: PerMessageDeflateResponseAccept(r) if isinstance(r, PerMessageDeflateResponse) else None) if policy == "accept" else (lambda r: None)}
+                if role == "client-no-offers":
+                    opts["perMessageCompressionOffers"] = []
                 side = wsutil.client(d, opts=opts)
                 ep = side.connect()
                 d.settle()
@@ -493,6 +499,8 @@ def negative(col, seed, n):
                 if role == "client-valid":
                     if not opened or side.proto._perMessageCompress is None:
                         raise Violation("C12|negative|valid-response-refused|" + name, "client did not open for %r (escaped=%r)" % (ext, ep.escaped), case)
+                elif role == "client-no-offers" and name.startswith("valid") and policy == "accept":
+                    pass    # a well-formed compression response approved by the application's accept policy: what the statement allows a client to complete
                 else:
                     if opened:
                         raise Violation("C12|negative|client-opened|" + name, "client completed the handshake for response extensions %r (policy=%s)" % (ext, policy), case)
